@@ -274,6 +274,20 @@ func getEnv() *env {
 		e.U = starlarkproto.MessageDescriptor{Desc: ud.(protoreflect.MessageDescriptor)}
 		e.S = starlarkproto.FileDescriptor{Desc: e.tdesc.ParentFile()}
 		e.pre = starlark.StringDict{"proto": starlarkproto.Module, "T": e.T, "E": e.E, "Other": e.Other, "U": e.U, "S": e.S}
+		// TF: a message type of another descriptor pool with the same full name
+		// as T (c20.T) and another layout: f_int32 is a string there (a second
+		// revision of the schema, a module run with another pool).  It is not T.
+		n32 := int32(e.tdesc.Fields().ByName("f_int32").Number())
+		fpool, err := protodesc.NewFiles(&descriptorpb.FileDescriptorSet{File: []*descriptorpb.FileDescriptorProto{{
+			Name: proto.String("c20.proto"), Package: proto.String("c20"), Syntax: proto.String("proto2"),
+			MessageType: []*descriptorpb.DescriptorProto{{Name: proto.String("T"), Field: []*descriptorpb.FieldDescriptorProto{
+				{Name: proto.String("f_int32"), Number: proto.Int32(n32), Label: descriptorpb.FieldDescriptorProto_LABEL_OPTIONAL.Enum(), Type: descriptorpb.FieldDescriptorProto_TYPE_STRING.Enum()}}}},
+		}}})
+		if err != nil {
+			fw.Fatal("c20: foreign descriptor: %v", err)
+		}
+		fd, _ := fpool.FindDescriptorByName("c20.T")
+		e.pre["TF"] = starlarkproto.MessageDescriptor{Desc: fd.(protoreflect.MessageDescriptor)}
 		e.fopts = &syntax.FileOptions{Set: true, GlobalReassign: true, TopLevelControl: true, While: true}
 		th := e.thread("c20-helpers")
 		g, err := starlark.ExecFileOptions(e.fopts, th, "c20helpers.star", helperSrc, e.pre)
